@@ -9,7 +9,7 @@ only = sys.argv[1:]
 rows = []
 for f in sorted(glob.glob("canaries/C*.diff")):
     b = os.path.basename(f)
-    m = re.match(r"(C\d\d)-(fix|x|\d+)-", b)
+    m = re.match(r"(C\d\d)-(fix|x|A|\d+)-", b)   # A = mutation written by an independent auditor
     if not m or m.group(2) == "fix":
         continue
     pid = m.group(1)
@@ -29,4 +29,17 @@ with open("canaries/RESULTS.md", "a" if only else "w") as out:
         out.write("# Canary results (quick tier, seed 0) - regenerate with tools/canary_table.py\n\n| patch | property | result | keys that fired (first 3) |\n|---|---|---|---|\n")
     for r in rows:
         out.write("| %s | %s | %s | %s |\n" % r)
-print("done", len(rows))
+# property-preserving refinements (false alarms of earlier check versions): must be MISSED
+ref = []
+for f in sorted(glob.glob("canaries/refinements/C*.diff")):
+    pid = os.path.basename(f)[:3]
+    if only and pid not in only:
+        continue
+    res = canary.run(f, [pid])
+    status = res[pid][0] if res else "PATCH-FAILED"
+    ref.append((os.path.basename(f), pid, status))
+if ref:
+    with open("canaries/RESULTS.md", "a") as out:
+        for r in ref:
+            out.write("| refinements/%s | %s | %s (a property-preserving change: MISSED is the sound answer) | |\n" % r)
+print("done", len(rows), len(ref))
